@@ -204,7 +204,10 @@ def rand_expr(rnd, names):
     if fname == 'arrayPush':
         # (mutates its first argument when that is an array - e.g. the rest array of a "..." function; never pushes an array into itself)
         return {'function': {'name': fname, 'args': [V(rnd.choice(names)), N(rnd.randint(0, 9))]}}
-    return {'function': {'name': fname, 'args': [V(rnd.choice(names))] * rnd.randint(0, 2)}}
+    nargs = rnd.randint(0, 2)
+    if nargs == 0 and rnd.random() < 0.5:
+        return {'function': {'name': fname}}  # the `args` member is optional in the model: a call without arguments
+    return {'function': {'name': fname, 'args': [V(rnd.choice(names))] * nargs}}
 
 
 def rand_stmts(rnd, n, names, infunc, nested=False):
@@ -237,6 +240,8 @@ def rand_stmts(rnd, n, names, infunc, nested=False):
                 f['args'] = args
                 if rnd.random() < 0.2:
                     f['lastArgArray'] = True
+                elif rnd.random() < 0.15:
+                    f['lastArgArray'] = False  # the optional flag spelled out: an ordinary parameter list
             out.append({'function': f})
         else:
             out.append({'expr': {'name': rnd.choice(names), 'expr': {'binary': {'op': '+', 'left': V('n'), 'right': N(1)}}}})
